@@ -561,6 +561,11 @@ func (ex *Exec) schedule(st *State) bool {
 			continue
 		}
 		if st.blockedStreak > len(st.coros)+1 {
+			// nothing can run: let time pass - the oldest pending timer fires (level S rule)
+			if !st.noAutoFire && ex.fireOldestTimer(st) {
+				st.blockedStreak = 0
+				continue
+			}
 			break
 		}
 		n := len(st.coros)
